@@ -43,6 +43,9 @@ size_t RequestParser::parse(const void *data_ptr, size_t data_size)
 
         //! 获取 method
         auto method_str_end = str.find_first_of(' ', pos);
+        //! 还没有收到方法名后面的空格：方法名可能被分段截断了，数据不长于最长的方法名时继续等待
+        if (method_str_end == std::string::npos && str.size() <= 7)
+            return 0;
         auto method_str = str.substr(pos, method_str_end);
         auto method = StringToMethod(method_str);
         if (method == Method::kUnset) {
